@@ -281,6 +281,11 @@ FRACTION_DELTAS = (0.002, 0.3, 0.49, 0.5, 0.51, 0.7, 0.998,
                    -0.002, -0.3, -0.49, -0.5, -0.51, -0.7, -0.998)
 
 
+# column after which a coordinate record is cut: inside the serial, after
+# it, after the atom name, the residue name, the chain id, the residue
+# number, and inside / after x and y (a record cut inside z still has a
+# readable, if shortened, z: nothing can tell it from a complete record)
+TRUNCATIONS = (8, 11, 16, 20, 22, 26, 30, 34, 38, 42, 46)
 _INPUT_CLASSES = None
 
 
@@ -335,9 +340,25 @@ def _input_classes():
             "HEADER    NOTHING\nREMARK   1\nEND\n", o, None)
         shortcut[f"no-pdb-records:{oname}"] = (
             "this is not a structure file\nat all\n", o, None)
+    # coordinate records that end before (or inside) their coordinates:
+    # each record kind x every field boundary up to the end of z
+    truncated = {}
+    wl = build.pdb_text(good + [build.water((9.0, 9.0, 9.0), 200)]) \
+        .splitlines()
+    for kind, idx in (("ATOM", next(i for i, l in enumerate(wl)
+                                    if l.startswith("ATOM") and " SER " in l)),
+                      ("HETATM", next(i for i, l in enumerate(wl)
+                                      if l.startswith("HETATM")))):
+        for cut in TRUNCATIONS:
+            for oname, o in (("", ["--ff=AMBER"]), (":clean", ["--clean"])):
+                ls = list(wl)
+                ls[idx] = ls[idx][:cut]
+                truncated[f"truncated-{kind}:{cut}{oname}"] = (
+                    "\n".join(ls) + "\n", o, None)
     return {
         **frac,
         **shortcut,
+        **truncated,
         "too-many-missing+waters": (build.pdb_text(trunc + wat),
                                     ["--ff=AMBER"], None),
         "too-many-missing-no-waters": (build.pdb_text(trunc), ["--ff=AMBER"],
@@ -531,6 +552,11 @@ def enumerate_cases(tier, seed):
                  "too-many-missing+waters", "too-many-missing-no-waters",
                  "waters-only"]:
         cases.append({"mode": "input", "name": name})
+    for kind in ("ATOM", "HETATM"):
+        for cut in TRUNCATIONS:
+            for oname in ("", ":clean"):
+                cases.append({"mode": "input",
+                              "name": f"truncated-{kind}:{cut}{oname}"})
     for oname in ("clean", "assign-only"):
         for base in ("empty-file", "header-only", "no-pdb-records"):
             cases.append({"mode": "input", "name": f"{base}:{oname}"})
